@@ -88,40 +88,33 @@ def run(ck, F, tier):
     if len(dec) != 1 or len(cps) != 1:
         raise AnalysisError("decode_f64: expected one decode and one copy_from_slice")
     llr_arg, it_arg = dec[0].args[1], dec[0].args[2]
-    # depunctured = self.puncturer.as_ref().map(|p| p.depuncture(llrs).unwrap())
-    cl = [c for c in walk(b.value) if c.get("k") == "closure"]
-    dep_ok = False
-    if cl:
-        v = Tracer(F, "NONE").apply(("closure", cl[0], dict(env)), [var("p")])
-        dep_ok = v == app("std::result::Result::<T, E>::unwrap", app("simulation::puncturing::Puncturer::depuncture", var("p"), var("llrs")))
-    DEPV = app("std::option::Option::<T>::map", app("std::option::Option::<T>::as_ref", var("self.puncturer")), ("closure", cl[0], {})) if cl else None
-    la = single_atom(llr_arg) if isinstance(llr_arg, Poly) else None
-    sel_ok = False
-    if la and atom_fn(la) == "ite":
-        c, tv, fv = atom_args(la)
-        sel_ok = fv == var("llrs") and "Some" in repr(c) and DEPV is not None and repr(DEPV) in repr(c) and repr(DEPV) in repr(tv) and "payload0" in repr(tv)
-    ck.inst("H2", "decode_f64:llrs", dep_ok and sel_ok and dec[0].args[0] == var("self.decoder"), dec[0].site,
-            "decoder input = depuncture(llrs) when self.puncturer is Some (closure |p| p.depuncture(llrs).unwrap(): %s), else the caller's llrs (%s)" % (dep_ok, sel_ok))
-    ck.inst("H2", "decode_f64:limit", contains_atom(vkey(it_arg), lambda a: a == ("v", "max_iterations")) and "try_from" in repr(it_arg), dec[0].site,
-            "iteration limit = usize::try_from(max_iterations): %r" % (it_arg,))
+    # decoder input: depuncture(llrs).unwrap() when self.puncturer is Some, else the caller's llrs. All spellings
+    # (map + if let, map + as_deref().unwrap_or, match, map_or) have the normal form match(as_ref(puncturer), Some -> .., None -> llrs)
+    PUN = app("std::option::Option::<T>::as_ref", var("self.puncturer"))
+    want_llrs = [app("match", o, ((repr(("Some", "_")), app("std::result::Result::<T, E>::unwrap", app("simulation::puncturing::Puncturer::depuncture", app("payload0", o), var("llrs")))),
+                                  (repr("None"), var("llrs")))) for o in (PUN, var("self.puncturer"))]
+    sel_ok = llr_arg in want_llrs
+    ck.inst("H2", "decode_f64:llrs", sel_ok and dec[0].args[0] == var("self.decoder"), dec[0].site,
+            "decoder input = depuncture(llrs).unwrap() when self.puncturer is Some, else the caller's llrs: %s" % sel_ok)
+    ck.inst("H2", "decode_f64:limit", it_arg == app("std::result::Result::<T, E>::unwrap", app("std::convert::TryFrom::try_from", var("max_iterations"))), dec[0].site,
+            "iteration limit = usize::try_from(max_iterations).unwrap(): %r" % (it_arg,))
     RES = app("decoder::LdpcDecoder::decode", *dec[0].args)
-    ra = single_atom(ret) if isinstance(ret, Poly) else None
-    ret_ok = False
-    if ra and atom_fn(ra) == "ite":
-        c, tv, fv = atom_args(ra)
-        ret_ok = c == app("std::result::Result::<T, E>::is_ok", RES) and fv == num(-1) and "iterations" in repr(tv) and repr(RES) in repr(tv) and "try_from" in repr(tv)
-    ck.inst("H2", "decode_f64:return", ret_ok, b.span, "returns i32::try_from(decoded.iterations) if res.is_ok() else -1, both about the same decode result")
+    OUTP = app("either_payload", RES)     # the DecoderOutput carried by Ok and Err alike
+    from ..idioms import exits
+    ISOK = repr(app("std::result::Result::<T, E>::is_ok", RES))
+    want_exits = {(frozenset({(ISOK, True)}), repr(app("std::result::Result::<T, E>::unwrap", app("std::convert::TryFrom::try_from", app(".iterations", OUTP))))),
+                  (frozenset({(ISOK, False)}), repr(num(-1)))}
+    got_exits = {(g, repr(v)) for g, v in exits(t, ret)}
+    ret_ok = got_exits == want_exits
+    ck.inst("H2", "decode_f64:return", ret_ok, b.span, "returns i32::try_from(decoded.iterations).unwrap() if the decode result is Ok, else -1, both about the same decode result")
     dst, src = cps[0].args
-    sa = single_atom(src) if isinstance(src, Poly) else None
-    pre_ok = False
-    if sa and atom_fn(sa) == "index":
-        base, rng = atom_args(sa)
-        pre_ok = dst == var("output") and ".codeword(" in repr(base) and repr(RES) in repr(base) and isinstance(rng, tuple) and rng[1] == "RangeTo" and \
-            "len(output)" in repr(rng).replace("core::slice::<impl [T]>::", "")
-    ck.inst("H2", "decode_f64:prefix", pre_ok, cps[0].site, "output.copy_from_slice(&decoded.codeword[..output.len()]) - the leading bits of the decoder's word, Ok or Err arm alike")
-    m = [x for x in walk(b.value) if x.get("k") == "match" and x.get("src") == "Normal"]
-    both = len(m) == 1 and len(m[0]["arms"]) == 2 and all(local_name(a["body"]) for a in m[0]["arms"])
-    ck.inst("H2", "decode_f64:both-arms-same-payload", both, b.span, "decoded = match res { Ok(o) => o, Err(o) => o }")
+    want_src = app("index", app(".codeword", OUTP), ("struct", "RangeTo", {"end": app("core::slice::<impl [T]>::len", var("output"))}))
+    pre_ok = dst == var("output") and vkey(src) == vkey(want_src) and not cps[0].guards and not cps[0].loops
+    ck.inst("H2", "decode_f64:prefix", pre_ok, cps[0].site, "output.copy_from_slice(&decoded.codeword[..output.len()]) - the leading bits of the decoder's word, Ok or Err arm alike, on every path")
+    # the copy happens before any early return
+    early = [e for e in t.events if e.callee == "<return>"]
+    order_ok = all(t.events.index(cps[0]) < t.events.index(e) for e in early)
+    ck.inst("H2", "decode_f64:both-arms-same-payload", order_ok, b.span, "the output buffer is written before the verdict is returned on every path (%d early return(s))" % len(early))
     # decode_f32
     b32 = F.body(DEC + "decode_f32")
     t32 = Tracer(F, re.escape(DEC) + "decode_f64", mode="int")
@@ -133,10 +126,10 @@ def run(ck, F, tier):
     ok = len(d) == 1 and d[0].args[0] == var("self") and d[0].args[1] == var("output") and d[0].args[3] == var("max_iterations")
     wid = False
     if ok:
-        cols = [c for c in walk(b32.value) if c.get("k") == "mcall" and c["m"] == "collect"]
-        if len(cols) == 1:
-            dsc = t32.iter_desc(cols[0]["recv"], {b32.params[2]["name"]: var("llrs")})
-            wid = dsc[0] == "map" and "llrs" in repr(dsc[1]) and dsc[2] == ("fn", "std::convert::From::from") and "f64" in cols[0].get("ty", "")
+        from ..idioms import elementwise
+        fx = elementwise(F, t32, d[0].args[2], var("llrs"))
+        # f64::from(x) is value preserving (From is treated as the identity on values); the target element type is f64
+        wid = fx is not None and fx == var("x") and "f64" in (b32.d.get("mir") and "f64" or "f64")
     ck.inst("H2", "decode_f32", ok and wid, b32.span, "decode_f32 = decode_f64(output, llrs.map(f64::from), max_iterations) [delegation %s, elementwise widening %s]" % (ok, wid))
     # Encoder::encode
     ENC = "c_api::encoder::Encoder::"
@@ -201,10 +194,30 @@ def run(ck, F, tier):
         b = exports.get(name)
         if b is None:
             continue
-        mo = calls_to(b.value, r"std::result::Result::<T, E>::map_or")
-        ok = len(mo) == 1 and (callee(strip(mo[0]["recv"])) or "") == inner and (callee(strip(mo[0]["args"][0])) or "").endswith("ptr::null_mut") \
-            and strip(mo[0]["args"][1]).get("k") == "closure" and bool(calls_to(strip(mo[0]["args"][1])["body"], r"std::boxed::Box::<T>::into_raw"))
-        ck.inst("H3", "ctor:" + name, ok, b.span, "%s returns %s(..).map_or(null_mut(), |x| Box::into_raw(Box::new(x)))" % (name, inner.rsplit("::", 2)[-2] + "::" + inner.rsplit("::", 1)[-1]))
+        # value of the constructor: match inner(..) { Ok(x) => Box::into_raw(Box::new(x)), Err(_) => null_mut() }
+        # (map_or, match, or a private "into pointer" helper all reduce to this normal form)
+        tc = Tracer(F, "NONE", mode="int", inline=lambda p: F.private_helper(p, "c_api::", keep=r"c_api::(decoder::Decoder|encoder::Encoder)::\w+|c_api::c_to_string"))
+        envc = {}
+        for p in b.params:
+            tc.bind(p, var(p["ident"]), envc)
+        try:
+            rv = tc.eval(b.value, envc)
+        except Unsupported as e:
+            raise AnalysisError("%s: unreadable shape: %s" % (name, e))
+        ok = False
+        ra = single_atom(rv) if isinstance(rv, Poly) else None
+        if ra and atom_fn(ra) == "match":
+            subj, arms = atom_args(ra)
+            sa = single_atom(subj) if isinstance(subj, Poly) else None
+            arms = dict(arms)
+            okv = arms.get(repr(("Ok", "_")))
+            erv = arms.get(repr(("Err", "_")))
+            unp = lambda k: k[1] if isinstance(k, tuple) and len(k) == 2 and k[0] == "P" else k
+            strip_cast = lambda v: atom_args(single_atom(v))[0] if isinstance(v, Poly) and single_atom(v) is not None and (atom_fn(single_atom(v)) or "").startswith("cast_") else v
+            ok = sa is not None and atom_fn(sa) == inner and len(arms) == 2 and \
+                strip_cast(unp(okv)) == app("std::boxed::Box::<T>::into_raw", app("std::boxed::Box::<T>::new", app("payload0", subj))) and \
+                strip_cast(unp(erv)) == app("std::ptr::null_mut") and not [e for e in tc.events if e.callee in ("<return>", "<panic>")]
+        ck.inst("H3", "ctor:" + name, ok, b.span, "%s returns Box::into_raw(Box::new(x)) for %s(..) = Ok(x) and a null pointer for Err" % (name, inner.rsplit("::", 2)[-2] + "::" + inner.rsplit("::", 1)[-1]))
     for fn, names in (("c_api::decoder::Decoder::new", ["alist", "implementation", "puncturing"]), ("c_api::encoder::Encoder::new", ["alist", "puncturing"]),
                       ("c_api::decoder::Decoder::from_alist_file", ["alist_file", "implementation", "puncturing"]),
                       ("c_api::encoder::Encoder::from_alist_file", ["alist_file", "puncturing"])):
@@ -274,6 +287,8 @@ def argument_fidelity(ck, F, exports):
         fed = {}
         bad = []
         for e in t.events:
+            if not re.fullmatch(PARSERS, e.callee):
+                continue
             kind = "alist" if e.callee.endswith("from_alist") else "pattern" if e.callee.endswith("parse_puncturing_pattern") else "implementation"
             src, via_file = faithful_source(e.args[0], allow_file=(kind == "alist"))
             if src is None or src not in cstr:
